@@ -20,7 +20,7 @@
     prune_automorphisms / mcs_mol (such steps are [HExternal]: the value-determined part of their answer is computed by the
     functions of C12_Model.v, the object's state after them is not tracked). *)
 From Coq Require Import List NArith ZArith Bool Arith.
-From SK Require Import lib.Tok lib.LGraph lib.Mono lib.Reach model.C12_Model.
+From SK Require Import lib.Tok lib.LGraph lib.Mono lib.Reach model.C12_Model model.C12_Trace.
 Import ListNotations.
 
 (* ---------- raw attribute dictionaries ---------- *)
@@ -150,18 +150,31 @@ Definition m_views (st : mstate) : list tok :=
   [tflag (s_flag st); tnat (s_last st); tnat (length (s_maps st));
    tanswer (m_get st DP2H); tanswer (m_get st D12); tanswer (m_get st D21)].
 
-(** one call: new state and the observable (same layout as [run_matcher] for the search calls) *)
+(** the observable of a search call: the layout of [run_matcher_tr] -- flag, last_size, number of GraphMatcher objects, the three
+    reads, and (plain search only) the trace of k-subsets with the number of isomorphisms each yields (model/C12_Trace.v) *)
+Definition search_tok (st' : mstate) (n : nat) (tr : list tok) : tok :=
+  L ([tflag (s_flag st'); tnat (s_last st'); tnat n;
+      tanswer (m_get st' DP2H); tanswer (m_get st' D12); tanswer (m_get st' D21)] ++ tr).
+
+Definition find_tok (cfg : config) (g1 g2 : rgraph) (mcs : bool) : mstate * tok :=
+  let '(st', n) := m_find cfg g1 g2 mcs in
+  (st', search_tok st' n
+          [ttrace (fcs_trace (c_defs cfg) (c_prune cfg) (c_wc cfg) (project cfg g1) (project cfg g2) mcs)]).
+
+(** one call: new state and the observable *)
 Definition m_step (cfg : config) (st : mstate) (o : mop) : mstate * tok :=
   match o with
-  | MFind g1 g2 mcs =>
-      let '(st', n) := m_find cfg g1 g2 mcs in
-      (st', L [tflag (s_flag st'); tnat (s_last st'); tnat n;
-               tanswer (m_get st' DP2H); tanswer (m_get st' D12); tanswer (m_get st' D21)])
+  | MFind g1 g2 mcs => find_tok cfg g1 g2 mcs
   | MRc x sd mcs component =>
-      match m_rc cfg x sd mcs component with
-      | (st', Some n) => (st', L [tflag (s_flag st'); tnat (s_last st'); tnat n;
-                                  tanswer (m_get st' DP2H); tanswer (m_get st' D12); tanswer (m_get st' D21)])
-      | (st', None) => (st', L (I (-1) :: m_views st'))
+      match pick_sides x sd with
+      | None => (s_init, L (I (-1) :: m_views s_init))
+      | Some (ga, gb) =>
+          if component then
+            match m_rc cfg x sd mcs true with
+            | (st', Some n) => (st', search_tok st' n [])
+            | (st', None) => (st', L (I (-1) :: m_views st'))
+            end
+          else find_tok cfg ga gb mcs
       end
   | MReads ds => (st, L (tlist (fun d => tanswer (m_get st d)) ds :: m_views st))
   end.
@@ -257,12 +270,15 @@ Definition t_find (cfg : config) (g1 g2 : rgraph) (mcs : bool) : tstate * nat :=
   let r := find_common_subgraph_mtg (c_defs cfg) (project_mtg cfg g1) (project_mtg cfg g2) mcs in
   ({| t_maps := fst (fst r); t_last := snd (fst r) |}, snd r).
 
+Definition t_find_tok (cfg : config) (g1 g2 : rgraph) (mcs : bool) : tstate * tok :=
+  let '(st', n) := t_find cfg g1 g2 mcs in
+  (st', L [tnat (t_last st'); tnat n; tmaps (t_maps st');
+           ttrace (mtg_trace (c_defs cfg) (project_mtg cfg g1) (project_mtg cfg g2) mcs)]).
+
 Definition t_step (cfg : config) (st : tstate) (o : top) : tstate * tok :=
   match o with
-  | TFind g1 g2 mcs =>
-      let '(st', n) := t_find cfg g1 g2 mcs in (st', L [tnat (t_last st'); tnat n; tmaps (t_maps st')])
-  | TRc x mcs =>
-      let '(st', n) := t_find cfg (rc_r1 x) (rc_l2 x) mcs in (st', L [tnat (t_last st'); tnat n; tmaps (t_maps st')])
+  | TFind g1 g2 mcs => t_find_tok cfg g1 g2 mcs
+  | TRc x mcs => t_find_tok cfg (rc_r1 x) (rc_l2 x) mcs
   | TRead => (st, L [tnat (t_last st); tmaps (t_maps st)])
   end.
 
